@@ -238,7 +238,16 @@ func C02(x *Idx) []V {
 			}
 			_ = i
 		}
-		// restart count of never-stopped processes, at every snapshot before any stop request
+		out = append(out, x.restartCountVerdicts("C02", proc, l)...)
+	}
+	return out
+}
+
+// restartCountVerdicts: for a process that has not been stopped yet, the reported restart count
+// equals the number of relaunches, at every quiescent snapshot.
+func (x *Idx) restartCountVerdicts(prop, proc string, l []*Inst) []V {
+	var out []V
+	{
 		firstStop := x.FirstStopReq(proc, 0, x.End)
 		if sb := x.has(0, x.End, func(e world.Event) bool { return e.Kind == world.EvMark && e.Text == "shutdown-begin" }); sb >= 0 && (firstStop < 0 || sb < firstStop) {
 			firstStop = sb
@@ -255,7 +264,8 @@ func C02(x *Idx) []V {
 				continue // counted already, relaunch still pending (held in the back-off window)
 			}
 			n := 0
-			apiSeen := false
+			// an explicit (re)start begins a new count: not judged afterwards
+			apiSeen := x.has(0, sn.Seq, func(e world.Event) bool { return isStartReq(e, proc) }) >= 0
 			for _, in := range l {
 				if in.Launch >= sn.Seq {
 					break
@@ -275,7 +285,7 @@ func C02(x *Idx) []V {
 				continue
 			}
 			if want := n + fails - 1; st.Restarts != want {
-				out = append(out, V{"C02", "restart-count", f("%s reports restarts=%d at snapshot seq %d, %d relaunches happened", proc, st.Restarts, sn.Seq, want)})
+				out = append(out, V{prop, "restart-count", f("%s reports restarts=%d at snapshot seq %d, %d relaunches happened", proc, st.Restarts, sn.Seq, want)})
 				break
 			}
 		}
@@ -488,9 +498,6 @@ func (x *Idx) resultVerdict(prop string) []V {
 			out = append(out, V{prop, "failure-without-trigger", f("Run() reported exit code %d but no exit_on_* condition was met before the shutdown began", h.RunCode)})
 		}
 		return out
-	}
-	if mark == x.End {
-		return out // a trigger without any shutdown is judged by the liveness clauses
 	}
 	if _, ok := acc[h.RunCode]; !ok {
 		var why []string
